@@ -140,7 +140,7 @@ class Func:
         # operands to the left are branch conditions of dominating blocks.
         for b in self.blocks.values():
             t = b.term
-            if t and "cond" in t and t["kind"] != "BinaryOperator":
+            if t and "cond" in t:
                 c = t["cond"]
                 for _ in range(32):
                     e = self.exprs[c]
